@@ -242,22 +242,16 @@ fn conn_known_class(c: &ConnCase, run: &conn::ConnRun) -> String {
     }
     for (i, h) in c.handlers.iter().enumerate() {
         let r = &c.reqs[i];
-        if r.expect && r.ver == 10 {
-            return "F23-expect-http10".into();
-        }
         if h.resp.status == 304 && !h.size.eofish() && !r.head() {
             return "F2-304-with-body".into();
         }
-        if (r.ver == 10 || h.resp.no_chunking) && h.size == SizeSpec::Stream {
-            return "F18-unframed-stream".into();
-        }
-        if h.size == SizeSpec::Stream && !h.resp.no_chunking && !h.filtering() && h.script.iter().any(|a| matches!(a, BAct::Chunk(x) if x.is_empty())) {
-            return "F1-empty-chunk".into();
-        }
     }
-    // a response that closes the connection (or is delimited by close) followed by further requests: C03's F15
+    // a response delimited by the end of the connection followed by further requests: C03's F15
     let n = c.reqs.len();
-    for i in 0..n.saturating_sub(1) {
+    for i in 0..n {
+        if i + 1 == n && !c.bad_tail {
+            break;
+        }
         let h = &c.handlers[i];
         let e = enc::Expect { ka: c.ka, req: &c.reqs[i], resp: &h.resp, size: &h.size, chunks: &[], ended: true };
         let close_delim = h.size == SizeSpec::Stream && (h.resp.no_chunking || c.reqs[i].ver == 10) && !e.no_body();
@@ -368,7 +362,7 @@ fn main() {
     }
     if args.case.is_none() {
         let mut rng = Rng::new(args.seed);
-        let n = args.n.unwrap_or(if args.thorough() { 12000 } else { 1500 });
+        let n = args.n.unwrap_or(if args.thorough() { 12000 } else { 1200 });
         for i in 0..n {
             let mut r = rng.fork();
             if i % 5 < 3 {
